@@ -374,7 +374,7 @@ pub(crate) mod verif_heap {
         /// acyclicity rank, symbolic sibling order, keys from a 3-value set), one insert or remove.
         /// Every such tree is a valid pairing heap (there is no balance invariant), so no reachability
         /// strengthening is needed.
-        fn step(kmax: usize, opsel: u8) {
+        fn step(kmax: usize, opsel: u8) -> u32 {
             let mut n0 = HeapNode::new(key());
             let mut n1 = HeapNode::new(key());
             let mut n2 = HeapNode::new(key());
@@ -433,13 +433,14 @@ pub(crate) mod verif_heap {
                 let mut was = [false; K];
                 let bits = apply(&mut KaniSrc, &mut heap, &tab, &mut member, &mut was, kmax, opsel);
                 validate(&heap, &tab, &member);
-                if opsel != 0 {
-                    kani::cover!(bits & W_REMOVE_INNER != 0, "W heap step: inner node with >= 2 children removed");
-                }
-                if opsel != 0 && kmax >= 4 {
-                    kani::cover!(bits & W_REMOVE_ROOT3 != 0, "W heap step: root with >= 3 children removed");
-                }
+                bits
             }
+        }
+        // (covers live in the proof functions: a cover inside a branch that is dead for a constant argument would be
+        // reported unsatisfiable and make the harness look vacuous)
+        fn step_covers(bits: u32) {
+            kani::cover!(bits & W_REMOVE_INNER != 0, "W heap step: inner node with >= 2 children removed");
+            kani::cover!(bits & W_REMOVE_ROOT3 != 0, "W heap step: root with >= 3 children removed");
         }
         #[kani::proof]
         #[kani::unwind(9)]
@@ -450,13 +451,13 @@ pub(crate) mod verif_heap {
 
         #[kani::proof]
         #[kani::unwind(7)]
-        fn heap_step_k4() { step(4, 2) }
+        fn heap_step_k4() { step_covers(step(4, 2)) }
         #[kani::proof]
         #[kani::unwind(7)]
-        fn heap_step_k5_insert() { step(5, 0) }
+        fn heap_step_k5_insert() { let _ = step(5, 0); }
         #[kani::proof]
         #[kani::unwind(7)]
-        fn heap_step_k5_remove() { step(5, 1) }
+        fn heap_step_k5_remove() { step_covers(step(5, 1)) }
 
         #[kani::proof]
         #[kani::unwind(7)]
